@@ -293,7 +293,11 @@ func (ex *Exec) jsonEncodeTyped(t types.Type, v Value, fr *frame, depth int) (Va
 			return h(ex, v.(*Struct), fr, depth)
 		}
 		if t.String() == "time.Time" {
-			return Iface{T: types.Typ[types.String], V: "T" + itoa(timeNS(v))}, ""
+			if ns, concrete := timeNSV(v).(int64); concrete {
+				return Iface{T: types.Typ[types.String], V: "T" + itoa(ns)}, ""
+			}
+			// a symbolic instant has no text in this model: good enough for logging, not for reading back
+			return Iface{T: types.Typ[types.String], V: "T?"}, ""
 		}
 		return ex.encodeStruct(t, v.(*Struct), fr, depth)
 	case *types.Signature, *types.Chan:
